@@ -183,6 +183,8 @@ pub struct CompilerSession {
     pending: std::sync::Arc<
         std::sync::Mutex<Option<std::sync::Arc<zydeco_statics::query::PendingParts>>>,
     >,
+    /// Serializes the hand-over through `pending` and numbers its uses.
+    pending_serial: std::sync::Arc<std::sync::Mutex<u64>>,
 }
 
 impl Default for CompilerSession {
@@ -191,6 +193,7 @@ impl Default for CompilerSession {
             storage: Storage::default(),
             files: std::sync::Arc::new(DashMap::new()),
             pending: std::sync::Arc::new(std::sync::Mutex::new(None)),
+            pending_serial: std::sync::Arc::new(std::sync::Mutex::new(0)),
         }
     }
 }
@@ -367,9 +370,17 @@ impl CompilerSession {
         scoped: zydeco_surface::scoped::arena::ScopedArena,
         root: zydeco_surface::scoped::syntax::TermId,
     ) -> zydeco_statics::query::TyckOutput {
-        *self.pending.lock().expect("pending check slot poisoned") =
-            Some(Arc::new(zydeco_statics::query::PendingParts { spans, prim, scoped, root }));
-        let data = zydeco_statics::query::intern_pending(self);
+        let data = {
+            // One program crosses the slot at a time, under a ticket of its own: the
+            // interning query is memoized per ticket, so every call checks the program
+            // it was given, also when snapshots share the slot.
+            let mut serial = self.pending_serial.lock().expect("pending serial poisoned");
+            *serial += 1;
+            *self.pending.lock().expect("pending check slot poisoned") =
+                Some(Arc::new(zydeco_statics::query::PendingParts { spans, prim, scoped, root }));
+            let ticket = zydeco_statics::query::PendingTicket::new(self, *serial);
+            zydeco_statics::query::intern_pending_for(self, ticket)
+        };
         zydeco_statics::query::check_source(self, data)
     }
 
